@@ -305,7 +305,7 @@ fn cli_downgrade(cases: &[(Vec<u8>, Vec<u8>)], rep: &mut Report) {
         kept.extend_from_slice(&evil[9..]);
         for (form, bytes) in [("encryption parameters kept", kept), ("plain unencrypted archive", evil.clone())] {
             let _ = std::fs::write(dir.join("d.mla"), &bytes);
-            for cmd in [vec!["list"], vec!["cat", "evil"], vec!["extract", "-o", "x"], vec!["to-tar", "-o", "x.tar"]] {
+            for cmd in [vec!["list"], vec!["cat", "evil"], vec!["extract", "-o", "x"], vec!["extract", "-o", "x", "--glob", "*"], vec!["to-tar", "-o", "x.tar"], vec!["convert", "-l", "-o", "c.mla"], vec!["repair", "-l", "-o", "r.mla"], vec!["repair", "-l", "-o", "r.mla", "--allow-unauthenticated-data"]] {
                 rep.evaluations += 1;
                 rep.transitions += 1;
                 let h = fnv(format!("clidg{ci}{form}{cmd:?}").as_bytes());
@@ -315,7 +315,10 @@ fn cli_downgrade(cases: &[(Vec<u8>, Vec<u8>)], rep: &mut Report) {
                 args.extend(cmd[1..].iter().map(|x| x.to_string()));
                 let o = cli::run(&exe, dir, &args, None);
                 rep.class(&format!("cli-downgrade/{}", if o.status.success() { "ACCEPTED" } else { "refused" }));
-                let leaked = String::from_utf8_lossy(&o.stdout).contains("evil") || std::fs::read(dir.join("x").join("evil")).is_ok();
+                let wrote_archive = ["c.mla", "r.mla"].iter().any(|f| std::fs::read(dir.join(f)).map(|b| b.windows(4).any(|w| w == b"evil")).unwrap_or(false));
+                let leaked = String::from_utf8_lossy(&o.stdout).contains("evil") || std::fs::read(dir.join("x").join("evil")).is_ok() || wrote_archive;
+                let _ = std::fs::remove_file(dir.join("c.mla"));
+                let _ = std::fs::remove_file(dir.join("r.mla"));
                 if o.status.success() || leaked {
                     rep.violate(Violation {
                         sig: json!({"kind": "cli_accepts_downgraded_archive", "command": cmd[0]}),
@@ -427,7 +430,7 @@ pub fn run(started: Instant) -> i32 {
             level: "fault_enumeration",
             rule: "encrypted base archives from the real writer (3 interleaved files, >=5 chunks; encrypt and encrypt+compress); mutants: every single-bit flip of every byte, every byte set to 00/FF, every truncation, all chunk swaps/duplications/deletions/replacements (same archive, sibling archive with another key), header field edits, and the downgrade (encryption bit cleared + unencrypted body substituted; also presented to the mlar binary with a private key, which must refuse it); each opened with the real ArchiveReader and all files read in all 6 orders (chunk edits, identity) or one rotating order, 7-byte or 4096-byte reads, reader configuration alternating between the default and one with the fail-safe-only option failsafe_return_data_even_unauthenticated() set. Oracle: every Ok(n) read equals the original bytes at that position (reads repeated on the same handle after an error included), no file ends early without an error, no flipped bit after the header goes unnoticed, no foreign name listed, the unaltered archive reads back completely - also for every first-file length 0..=block+chunk+tag+8 (3 files, encrypt and encrypt+compress), i.e. every alignment of the end of the inner stream. non-trivial = distinct (mutant, order) other than identity".to_string(),
             exhaustive: true,
-            bounds: json!({"bases": progs.len(), "mutation_operators": ["bitflip(all bits of all bytes)", "byteset 00/FF", "truncate(all lengths)", "chunk swap/duplicate/delete/replace/sibling/last-to-front", "header zero/increment/low-order point", "downgrade: ENCRYPT bit cleared + unencrypted body (library: known finding; mlar with a key: must refuse, 4 commands x 2 forms)"], "read_orders": "all 6 permutations for chunk edits and identity; rotating single order otherwise"}),
+            bounds: json!({"bases": progs.len(), "mutation_operators": ["bitflip(all bits of all bytes)", "byteset 00/FF", "truncate(all lengths)", "chunk swap/duplicate/delete/replace/sibling/last-to-front", "header zero/increment/low-order point", "downgrade: ENCRYPT bit cleared + unencrypted body (library: known finding; mlar with a key: must refuse: list, cat, extract (both forms), to-tar, convert, repair (both modes) x 2 forms)"], "read_orders": "all 6 permutations for chunk edits and identity; rotating single order otherwise"}),
             assumptions: vec!["scaled constants; panics are counted here but judged by C08".to_string(), "forging a tag is assumed infeasible".to_string()],
         },
         started,
